@@ -51,7 +51,7 @@ def cases(tier, seed):
                        'd': int(r.randint(2, 5 if q else 8)),
                        'classes': int(r.randint(2, 4)), 'variant': 'plain',
                        'nmax': 48},
-                'n_tuples': int(r.choice([16, 24, 40])),
+                'n_tuples': int(r.choice([16, 24, 40, 1, 1, 2, 3])),
                 'seed': int(r.randint(1000))})
   return out
 
